@@ -120,6 +120,25 @@ func (p SpendPolicy) Address() Address {
 
 // Verify verifies that p is satisfied by the supplied inputs.
 func (p SpendPolicy) Verify(height uint64, medianTimestamp time.Time, sigHash Hash256, sigs []Signature, preimages [][32]byte) error {
+	// a policy nested more deeply than the decoder allows could be satisfied
+	// in memory but never be read back from its encoding by anyone else
+	var tooDeep func(p SpendPolicy, depth int) bool
+	tooDeep = func(p SpendPolicy, depth int) bool {
+		if depth > maxPolicyDepth {
+			return true
+		}
+		if t, ok := p.Type.(PolicyTypeThreshold); ok {
+			for _, sp := range t.Of {
+				if tooDeep(sp, depth+1) {
+					return true
+				}
+			}
+		}
+		return false
+	}
+	if tooDeep(p, 0) {
+		return fmt.Errorf("policy exceeds maximum nesting depth of %d", maxPolicyDepth)
+	}
 	nextSig := func() (sig Signature, ok bool) {
 		if ok = len(sigs) > 0; ok {
 			sig, sigs = sigs[0], sigs[1:]
